@@ -294,7 +294,10 @@ BadDirect(p, o, stored, direct, req) ==
                                c \in {req[a.t][k] : k \in 1..Len(req[a.t])} /\ a.t \in DOMAIN o
                                /\ c \in DOMAIN o[a.t].hasf /\ ~o[a.t].hasf[c]   \* a plain data column
                                /\ a.t \in DOMAIN p /\ c \in DOMAIN p[a.t].hasf /\ ~p[a.t].hasf[c]
-  IN {<<i, "summary-direct">> : i \in {k \in 1..n : IsRec(stored[k]) /\ stored[k].t \in sums /\ direct[k]}}
+     \* maintenance of summary-table ROWS = adding and removing them (an update of a group-by cell of a
+     \* summary table can also be the clean-up of references to removed rows, which belongs to the request)
+  IN {<<i, "summary-direct">> : i \in {k \in 1..n : stored[k].n \in {"BulkAddRecord", "BulkRemoveRecord"}
+                                                   /\ stored[k].t \in sums /\ direct[k]}}
      \cup {<<i, "formula-direct">> : i \in {k \in 1..n : AllFormula(stored[k]) /\ direct[k]}}
      \cup {<<i, "schema-direct">> : i \in {k \in 1..n : DOMAIN req # {} /\ ~IsRec(stored[k]) /\ direct[k]}}
      \cup {<<i, "request-indirect">> : i \in {k \in 1..n : Requested(stored[k]) /\ ~direct[k]}}
